@@ -8,22 +8,25 @@ import gen_common as G
 import supcert
 
 LEVEL = "proof"
-TECHNIQUE = ("Coq-verified continuum certificates: check_trig_acc (|p(x) - scale cos(tau x)| <= eps, resp. sin, for every x in [-1,1]) "
-             "and check_inv_acc_scaled (|p(x)/scale - 1/x| <= 3 eps for every x in [1/kappa, 1]) - cell covers, Chebyshev series by "
-             "the 3-term recurrence in interval arithmetic, verified enclosures of cos(tau x), sin(tau x) at interval arguments and "
-             "of 1/x by interval division, Lipschitz constants sum k|c_k| + scale*tau resp. + kappa^2; monomial output through the "
-             "exact poly2cheb model. The erf-family clause is decided by independent recomputation of the least-squares Chebyshev "
-             "fit (normal equations, float oracle for erf) and comparison of coefs/scale with it")
-LEVEL_TEXT = ("Props/C16.v: 4 theorems (certificate soundness for cosine/sine in both bases and for 1/x; target enclosure). Cosine, "
-              "sine and 1/x outputs are certified on the whole interval per instance. PARTIAL for the erf family: 'is a positive "
-              "multiple of the least-squares fit of the documented target' is checked against a float recomputation (erf, exp, "
-              "chebpts1 nodes are oracles), no theorem.")
+TECHNIQUE = ("Coq-verified continuum certificates: (1) first order - check_trig_acc (|p(x) - scale cos(tau x)| <= eps, resp. sin, for every x in "
+             "[-1,1]) and check_inv_acc_scaled (|p(x)/scale - 1/x| <= 3 eps for every x in [1/kappa, 1]): cell covers, Chebyshev series by the "
+             "3-term recurrence in interval arithmetic, verified enclosures of the targets, Lipschitz constants; (2) high order, for small eps - "
+             "check_trig_acc_hi / check_inv_acc_hi: exact cheb2poly, Taylor shift of p at the cell centre in 400-bit interval arithmetic, the "
+             "target through the addition formulas with the alternating-series remainders of cos u, sin u (|u| <= 1) resp. the geometric "
+             "series of 1/(x0+d), coefficient-wise difference bounded by sum_k |d_k| r^k. The erf-family clause is decided by independent "
+             "recomputation of the least-squares Chebyshev fit (normal equations, float oracle for erf) and comparison of coefs/scale with it")
+LEVEL_TEXT = ("Props/C16.v: 8 theorems (certificate soundness, first and high order, for cosine/sine in both bases and for 1/x; target "
+              "enclosure; Taylor shift). Every cosine, sine and 1/x output of the run is certified on the whole interval (the high-order "
+              "certificate takes over where the first-order cover would exceed the cell budget, i.e. at small eps). PARTIAL for the erf "
+              "family: 'is a positive multiple of the least-squares fit of the documented target' is checked against a float recomputation "
+              "(erf, exp, chebpts1 nodes are oracles), no theorem.")
 LEVEL_NOTE = ("Trusted: Coq kernel, extraction, driver.ml, harness (cell proposal untrusted), numpy/scipy as executors; scipy.special.erf "
               "and numpy's linear solve inside the reference recomputation of the erf-family fits. Axioms: stdlib real-number axioms + "
               "Classical_Prop.classic.")
-RULE = ("cosine / sine: tau in (0, 60], eps in {0.5, 0.1, 1e-2, 1e-4, 1e-8}, both bases (monomial while degree <= 24), bounded and "
-        "unbounded; 1/x: (kappa, eps) table with kappa in [1.5, 8], both ensure_bounded values, Chebyshev basis; erf family: degrees "
-        "2..60, shapes as C14, cheb_samples >= degree+1, Chebyshev basis; distinct by JSON; non-trivial = always")
+RULE = ("cosine / sine: tau in (0, 60] plus large values up to 200, eps in {0.5, 0.1, 1e-2, 1e-4, 1e-8, 1e-10}, both bases (monomial while "
+        "degree <= 24), bounded and unbounded; 1/x: (kappa, eps) table with kappa in [1.5, 10] and kappa^2 log(kappa/eps) <= 500, both "
+        "ensure_bounded values, Chebyshev basis; erf family: degrees 2..60, shapes as C14, cheb_samples >= degree+1, Chebyshev basis; "
+        "distinct by JSON; non-trivial = always")
 TRUSTED = ["Coq 8.16.1 kernel", "extraction (ExtrOcamlBasic, ExtrOcamlZBigInt) + driver.ml + zarith", "harness (cell proposal untrusted; impl_handlers5.py)",
            "numpy/scipy as executors; scipy.special.erf + numpy.linalg.solve as oracles of the erf-family reference fit"]
 ASSUME = ["returned doubles, tau, eps, kappa are exact dyadic rationals; erf-family targets as documented in poly.py's docstrings / closures"]
@@ -49,9 +52,34 @@ def budgeted_cover(ctx, g, L, M, end, start, rmax, budget, grid_end=None):
         return ("exceeds", bt)
     margin = M - best
     if margin <= 0 or 1.1 * L * (end - start) / margin > budget:
-        ctx.bucket("float grid only (cover would need > %d cells): not certified" % budget)
         return ("skip", None)
     return supcert.make_cells_fn(g, L, M, end=end, start=start, rmax=rmax, max_cells=2 * budget)
+
+
+def xcells(n, lo_x, hi_x, rmax_of, nh=2.0):
+    """x-space cells (centre, radius) covering [lo_x, hi_x]: images of uniform theta cells of half-width nh/n (so that the
+    Taylor 1-norm of a degree-n polynomial on a cell stays within e^nh of its sup), split so that radius <= rmax_of(left end)"""
+    h = min(nh / max(n, 1), 0.3)
+    t = math.acos(max(-1.0, min(1.0, lo_x)))
+    edges = [lo_x - 1e-9]
+    while True:
+        t = max(0.0, t - 2 * h)
+        x = math.cos(t)
+        if x >= hi_x or t == 0.0:
+            edges.append(hi_x + 1e-9)
+            break
+        edges.append(x)
+    out = []
+    for a, b in zip(edges[:-1], edges[1:]):
+        m = max(1, int(math.ceil((b - a) / 2 / rmax_of(a))))
+        for i in range(m):
+            lo, hi = a + (b - a) * i / m, a + (b - a) * (i + 1) / m
+            out.append((Fraction((lo + hi) / 2).limit_denominator(1 << 40), Fraction((hi - lo) / 2 * 1.001 + 1e-12).limit_denominator(1 << 40)))
+    return out
+
+
+def xcells_sexp(cells):
+    return "(" + " ".join("(%s %s)" % (qs(a), qs(b)) for a, b in cells) + ")"
 
 
 def run(ctx):
@@ -63,13 +91,14 @@ def run(ctx):
         cases = [ctx.replay["case"]]
     else:
         for name in ("cos", "sin"):
-            taus = [0.5, 3.0, 7.0156, 10.0, 20.0, 35.0] + [rng.uniform(0.1, 60) for _ in range(2 if quick else 10)]
+            taus = [0.5, 3.0, 7.0156, 10.0, 20.0, 35.0] + [rng.uniform(0.1, 60) for _ in range(2 if quick else 10)] + \
+                   ([rng.choice([90.0, 120.0, 200.0])] if quick else [90.0, 150.0, 200.0])
             for tau in taus:
-                for eps in ([rng.choice([0.5, 0.1]), rng.choice([0.05, 1e-2, 1e-4, 1e-8])] if quick else [0.5, 0.1, 0.05, 1e-2, 1e-4, 1e-8]):
+                for eps in ([rng.choice([0.5, 0.1]), rng.choice([0.05, 1e-2, 1e-4, 1e-8, 1e-10])] if quick else [0.5, 0.1, 0.05, 1e-2, 1e-4, 1e-8, 1e-10]):
                     cheb = not (tau < 8 and rng.random() < 0.4)
                     cases.append({"fn": "gen", "name": name, "args": G.enc_args({"tau": tau, "epsilon": eps}), "ensure_bounded": rng.random() < 0.7,
                                   "return_scale": False, "chebyshev_basis": cheb, "timeout": 300})
-        for kappa, eps in ((1.5, 0.3), (2, 0.1), (3, 0.3), (3, 0.01), (4, 1e-3), (5, 0.1), (8, 0.05), (3, 1e-3), (2.5, 0.2))[: (6 if quick else 9)]:
+        for kappa, eps in ((1.5, 0.3), (2, 0.1), (3, 0.3), (3, 0.01), (4, 1e-3), (5, 0.1), (10, 0.1), (8, 0.05), (3, 1e-3), (2.5, 0.2), (6, 1e-4), (2, 1e-10))[: (7 if quick else 12)]:
             for eb in (True, False):
                 cases.append({"fn": "gen", "name": "invert", "args": G.enc_args({"kappa": float(kappa), "epsilon": eps}), "ensure_bounded": eb,
                               "return_scale": eb, "chebyshev_basis": True, "timeout": 300})
@@ -127,6 +156,12 @@ def run(ctx):
                 lines.append("(trigacc %d %d %s %s %s %s %s)" % (0 if c["chebyshev_basis"] else 1, 1 if name == "sin" else 0, Q.qlist(r["ok"]["coefs"]),
                                                               qs(fr(scale)), qs(fr(tau)), supcert.cells_sexp(data), qs(fr(eps))))
                 keep.append((c, "trig", len(data)))
+            elif kind == "skip":
+                # high-order certificate (Taylor shift on x-cells with |tau| r <= 1): no budget problem at small eps
+                cells = xcells(len(cf) - 1, -1.0, 1.0, lambda a: 0.999 / max(abs(tau), 1e-9))
+                lines.append("(trigacchi %d %d %s %s %s %s %d %s)" % (0 if c["chebyshev_basis"] else 1, 1 if name == "sin" else 0, Q.qlist(r["ok"]["coefs"]),
+                                                                    qs(fr(scale)), qs(fr(tau)), xcells_sexp(cells), 5, qs(fr(eps))))
+                keep.append((c, "trig, high order", len(cells)))
             elif kind == "exceeds":
                 x = math.cos(data)
                 err = abs(clenshaw(cc, data) - tgt(data))
@@ -158,6 +193,10 @@ def run(ctx):
                     data.append((tc, max(thmax - tc + 1e-9, tc - last + 1e-10)))
                 lines.append("(invacc %s %s %s %s %s %s)" % (Q.qlist(r["ok"]["coefs"]), qs(fr(scale)), qs(fr(kappa)), qs(fr(thmax)), supcert.cells_sexp(data), qs(fr(tol))))
                 keep.append((c, "inv", len(data)))
+            elif kind == "skip":
+                cells = xcells(len(cf) - 1, 1 / kappa, 1.0, lambda a: max(a, 1 / kappa) / 4)
+                lines.append("(invacchi %s %s %s %s %d %s)" % (Q.qlist(r["ok"]["coefs"]), qs(fr(scale)), qs(fr(kappa)), xcells_sexp(cells), 40, qs(fr(tol))))
+                keep.append((c, "inv, high order", len(cells)))
             elif kind == "exceeds":
                 x = math.cos(data)
                 err = abs(clenshaw(cc, data) - 1 / x)
